@@ -151,6 +151,35 @@ def parse_edges(out):
     return res, len(behs)
 
 
+def _tla_to_json(txt):
+    """TLA+ value made of sequences, records, strings and integers -> Python."""
+    txt = re.sub(r'(\w+) \|->', r'"\1":', txt)
+    txt = txt.replace("<<", "\x01").replace(">>", "\x02").replace("[", "{").replace("]", "}")
+    txt = txt.replace("\x01", "[").replace("\x02", "]")
+    return json.loads(txt)
+
+
+def parse_sim_files(d):
+    """Trace files written by `tlc -simulate file=...` -> the hist of each trace's last state."""
+    behs = []
+    for fn in sorted(os.listdir(d)):
+        with open(os.path.join(d, fn)) as fh:
+            txt = fh.read()
+        k = txt.rfind("/\\ hist = ")
+        if k < 0:
+            continue
+        rest = txt[k + len("/\\ hist = "):]
+        m = re.search(r"\n/\\ |\n\n", rest)
+        val = rest[:m.start()] if m else rest
+        try:
+            b = _tla_to_json(val)
+        except ValueError:
+            continue
+        if b:
+            behs.append(b)
+    return behs
+
+
 # ----------------------------------------------------------------------------
 # running the harness
 def build_harness(ctx):
@@ -486,14 +515,20 @@ class Engine:
         return behs, nedges
 
     def simulate(self, cfg, num, depth, timeout=300):
-        r = self.ctx.tlc("FSM", cfg=cfg, workers=1, timeout=timeout, deadlock=False, simulate="num=%d" % num, depth=depth,
+        d = self.ctx.sub("simtraces-" + cfg.replace(".cfg", ""))
+        r = self.ctx.tlc("FSM", cfg=cfg, workers=1, timeout=timeout, deadlock=False,
+                         simulate="num=%d,file=%s" % (num, os.path.join(d, "t")), depth=depth,
                          name="tlc-sim-" + cfg.replace(".cfg", ""))
         self._record(cfg, r, "simulate")
         if r.invariant_violated:
-            raise vlib.Inconclusive("the design spec FSM.tla (%s, simulation) violates its own invariant %s" % (cfg, r.invariant_violated))
+            raise vlib.Inconclusive("the design spec FSM.tla (%s, simulation) violates its own invariant %s\n%s"
+                                    % (cfg, r.invariant_violated, r.out[-1500:]))
         if not r.ok:
             raise vlib.Inconclusive("TLC simulation failed on %s: rc=%s\n%s" % (cfg, r.rc, r.out[-1500:]))
-        behs, _ = parse_edges(r.out)
+        behs = parse_sim_files(d)
+        shutil.rmtree(d, ignore_errors=True)
+        if len(behs) < num // 2:
+            raise vlib.Inconclusive("only %d of %d simulated behaviours could be read back" % (len(behs), num))
         return behs
 
     def counterexample(self, cfg, timeout=300):
